@@ -112,7 +112,11 @@ def do_run(name, tier, props=None):
             res[p] = {"exit": r.returncode, "lines": [v[:300] for v in viol[:3]]}
     finally:
         drop_wt(wt)
-    meta.setdefault("check_results", {})[tier] = res
+    # merge: a later run against other properties must not forget earlier results of this tier
+    prev = (meta.get("check_results") or {}).get(tier) or {}
+    prev.update(res)
+    meta.setdefault("check_results", {})
+    meta["check_results"][tier] = prev
     json.dump(meta, open(os.path.join(dst, "meta.json"), "w"), indent=1)
     print(name, tier, json.dumps(res)[:600])
     return res
